@@ -1,4 +1,5 @@
 #!/bin/sh
+export VERIF_EVIDENCE_DIR=/tmp/verif-seed-evidence
 # usage: seedcheck.sh <patch.diff> <property id> [tier]   — applies the patch to /repo, runs the check, undoes the patch
 if ! git -C /repo diff --quiet; then echo "/repo is dirty, refusing"; exit 2; fi
 if ! git -C /repo apply --check "$1" 2>/dev/null; then
